@@ -68,6 +68,12 @@ LEVEL_NOTE = ('Trusted: mc/env_fs.py (LoggedFS op log; its replay model is verif
 RULE = ('cases = histories (container, n1<=n2, save_frequency, spec2 in {same,+rate,+size}) x stop family x shard; '
         'plus "api" cases (batches built through the API whose decoder prior differs from the simulated rate: shared '
         'prior, swapped priors, prior per size; run - stop at every trial boundary - rebuild - resume), '
+        'plus "names" cases (output file names x.json, x.json.gz, x.gz, a.b.json.gz, a.b.json, and one without '
+        'extension which counts as skipped when the library refuses it: run - stop at every trial boundary - '
+        'restart), "neighbours" cases (the results file of another batch with the same stem and the other '
+        'extension and an unrelated file next to the output file must stay byte-identical through run and restart, '
+        'in the presence of a leftover <output>.<random>.tmp that may be removed or left; both batches resume from '
+        'their own saved prefix), '
         'plus "grow" cases (two sizes x two rates grown by a rate / a size that precedes existing simulations in '
         'expansion order), "pause" cases (KeyboardInterrupt inside every trial - before generate and before decode '
         '- and at every trial boundary, then run() again on the same object), '
@@ -221,13 +227,20 @@ def norm_results(res):
 LISTS = ('effective_error', 'success', 'codespace')
 
 
+NAME_FORMS = ['x.json', 'x.json.gz', 'x.gz', 'a.b.json.gz', 'a.b.json', 'noext']
+
+
 def out_name(container):
+    """'json' / 'gz' are the two standard names; 'name:<file name>' is any other output file name."""
+    if container.startswith('name:'):
+        return container[5:]
     return 'o.json' if container == 'json' else 'o.json.gz'
 
 
 def ref_load(data, container):
     """Reference reader of a results file: list of records, or raises."""
-    if container == 'gz':
+    if container == 'gz' or (container.startswith('name:') and data[:2] == b'\x1f\x8b'):
+        # (for a free-form name the property does not say which encoding the file has: look at the magic)
         data = gzip.decompress(data)
     recs = json.loads(data.decode('utf-8'))
     if not isinstance(recs, list):
@@ -831,6 +844,11 @@ def cases(tier, seed):
             for variant in sorted(API_SPECS):
                 out.append({'family': 'api', 'container': container, 'save_frequency': f, 'base': variant,
                             'grown': [variant], 'n_pairs': b['n_pairs'], 'tier': tier})
+            out.append({'family': 'neighbours', 'container': container, 'save_frequency': f,
+                        'n_pairs': b['n_pairs'], 'tier': tier})
+        for name in NAME_FORMS:
+            out.append({'family': 'names', 'container': 'name:' + name, 'save_frequency': f, 'base': 'base',
+                        'grown': ['same', 'rate'], 'refusal_ok': True, 'n_pairs': b['n_pairs'], 'tier': tier})
     fams = ['between', 'kill', 'interrupt'] + (['depth2'] if b['depth'] >= 2 else [])
     for fam in fams:
         for (n1, n2) in b['n_pairs']:
@@ -861,8 +879,10 @@ def eval_case(case):
             return _eval_depth2(case, sb)
         if case['family'] == 'resume':
             return _eval_resume(case, sb)
-        if case['family'] in ('grow', 'api'):
+        if case['family'] in ('grow', 'api', 'names'):
             return _eval_grow(case, sb)
+        if case['family'] == 'neighbours':
+            return _eval_neighbours(case, sb)
         if case['family'] == 'pause':
             return _eval_pause(case, sb)
         return _eval_depth1(case, sb)
@@ -1075,6 +1095,13 @@ def _eval_grow(case, sb):
         image1 = E.read_image(d)
         sb.drop(d)
         if rec1['raised'] is not None:
+            if case.get('refusal_ok') and rec1['raised'][0] == 'ValueError' and out_rel not in image1:
+                # an uninterrupted first run refuses this file name outright: not a name form the library
+                # supports, nothing to resume
+                acc.res['skipped'] += 1
+                acc.res['evals'] += 1
+                acc.outcomes.add('name-refused|' + out_rel)
+                continue
             acc.add('first-run-raises', 'none', rec1['raised'][0], f, {'message': rec1['raised'][1]})
             continue
         saves = E.completed_saves(rec1['log'], out_rel)
@@ -1092,6 +1119,102 @@ def _eval_grow(case, sb):
             st['start'] = '%s-%d' % (base, n1)
             for spec2 in grown:
                 _judge_stop(acc, sb, sub, st, spec2, n2, f, serial=100000, depth=1)
+    return acc.finish()
+
+
+def _neighbour_damage(before, after, own):
+    out = []
+    for name, data in sorted(before.items()):
+        if name in own:
+            continue
+        if name not in after:
+            out.append({'file': name, 'what': 'deleted'})
+        elif after[name] != data:
+            out.append({'file': name, 'what': 'changed', 'bytes_before': len(data), 'bytes_after': len(after[name])})
+    return out
+
+
+def _eval_neighbours(case, sb):
+    """Other files live next to the output file: the results of ANOTHER batch with the same stem and the other
+    extension (written first), a leftover '<output>.<random>.tmp' of a killed save, an unrelated file.  This
+    batch runs, is stopped (complete / at every trial boundary), is restarted; then the other batch is resumed.
+    The other batch's file and the unrelated file must be byte-identical after each run of this batch (the
+    leftover temporary is only an environment condition: it may be removed or left), and each batch must resume
+    from its own saved prefix."""
+    acc = _Acc(case)
+    container, f = case['container'], case['save_frequency']
+    other = 'gz' if container == 'json' else 'json'
+    out_rel, other_rel = out_name(container), out_name(other)
+    for pair_no, (n1, n2) in enumerate(case['n_pairs']):
+        d = sb.fresh({})
+        rec_o = execute(d, other, 'base', n1, f, serial=300000)
+        image_o = E.read_image(d)
+        sb.drop(d)
+        if rec_o['raised'] is not None or other_rel not in image_o:
+            acc.add('first-run-raises', 'none', (rec_o['raised'] or ['no-file'])[0], f, {'batch': other})
+            continue
+        cum_o = Cum()
+        for _i, data in E.completed_saves(rec_o['log'], other_rel):
+            cum_o = extend_cum(cum_o, data, other)
+        lineage_o = merge_lineage({}, rec_o['mem'])
+        neighbours = {other_rel: image_o[other_rel],
+                      out_rel + '.k3v9q2x1.tmp': b'[{"results": {"n_runs": 1, "wall_ti',
+                      'notes.txt': b'unrelated file that lives in the results directory\n'}
+        # the leftover temporary is an environment condition only: a run may remove it or leave it, the property
+        # does not protect it; the other batch's results and the unrelated file are protected
+        own = {out_rel, out_rel + '.k3v9q2x1.tmp'}
+        start = (dict(neighbours), None, {})
+        states = []
+        d = sb.fresh(neighbours)
+        rec1 = execute(d, container, 'base', n1, f, serial=0)
+        image1 = E.read_image(d)
+        sb.drop(d)
+        if rec1['raised'] is not None:
+            acc.add('first-run-raises', 'none', rec1['raised'][0], f, {'message': rec1['raised'][1]})
+            continue
+        saves = E.completed_saves(rec1['log'], out_rel)
+        cum = Cum()
+        for _i, data in saves:
+            cum = extend_cum(cum, data, container)
+        states.append({'stop': 'between-trials', 'where': {'run1': 'completed %d trials' % n1}, 'image': image1,
+                       'b0': latest_save(saves, len(rec1['log']) + 1, None), 'cum': cum,
+                       'lineage': merge_lineage({}, rec1['mem'])})
+        if pair_no == 0:
+            states += list(stops_of_run(sb, container, 'base', n1, f, start, {'between'}, TIER_OFFSETS['quick'],
+                                        serial=0))
+        for st in states:
+            acc.res['evals'] += 1
+            acc.res['extra']['stop_points'] += 1
+            hist = {'n1': n1, 'n2': n2, 'neighbours': sorted(neighbours), 'this_batch': out_rel,
+                    'other_batch': other_rel}
+            for dmg in _neighbour_damage(neighbours, st['image'], own):
+                acc.add('neighbour-damaged', st['stop'], None, f, dict(dmg, history=hist, by='run 1',
+                                                                        stopped_at=st['where']))
+            viol, outcome, _rec, image2 = restart_and_judge(sb, container, 'same', n2, f, st, serial=100000)
+            acc.res['extra']['restarts'] += 1
+            for kind, exc, detail in viol:
+                acc.add(kind, st['stop'], exc, f, dict(detail, history=hist, batch=out_rel, stopped_at=st['where']))
+            for dmg in _neighbour_damage(st['image'], image2, own):
+                acc.add('neighbour-damaged', st['stop'], None, f, dict(dmg, history=hist, by='restart',
+                                                                        stopped_at=st['where']))
+            # now the other batch is resumed, next to this batch's finished file
+            st_o = {'stop': st['stop'], 'where': st['where'], 'image': image2, 'b0': image_o[other_rel],
+                    'cum': cum_o, 'lineage': lineage_o}
+            viol_o, outcome_o, _rec, image3 = restart_and_judge(sb, other, 'same', n2, f, st_o, serial=200000)
+            acc.res['extra']['restarts'] += 1
+            for kind, exc, detail in viol_o:
+                acc.add(kind, st['stop'], exc, f, dict(detail, history=hist, batch=other_rel,
+                                                       message2='the other batch, resumed after this one ran',
+                                                       stopped_at=st['where']))
+            for dmg in _neighbour_damage(image2, image3, {other_rel, out_rel + '.k3v9q2x1.tmp'}):
+                acc.add('neighbour-damaged', st['stop'], None, f, dict(dmg, history=hist, by='resume of the other batch',
+                                                                        stopped_at=st['where']))
+            acc.states.add((n1, n2, json.dumps(st['where'], sort_keys=True)))
+            acc.outcomes.add('neighbours|%s|%s|other:%s' % (st['stop'], outcome, outcome_o))
+            if not acc.res['samples']:
+                acc.res['samples'] = [{'family': 'neighbours', 'this_batch': out_rel, 'history': hist,
+                                       'save_frequency': f, 'stopped_at': st['where'],
+                                       'verdict': outcome, 'other_batch_verdict': outcome_o}]
     return acc.finish()
 
 
